@@ -628,16 +628,27 @@ def run(ctx):
         exhaustive = True
     kernels = gen_kernels(rng, 120 if quick else 1200)
     impl = F.run_impl(IMPL, {"cases": cases, "kernels": kernels})
+    # the executable instance is not imported by any obligation file: (re)build it against the kernels just translated
+    with F.BuildLock():
+        ok_exec, mk_out = F.make(["C07/ReducerExec.vo"], timeout=900)
     terms = [q_case(c) for c in cases] + [q_kernel(k) for k in kernels]
     model = F.eval_terms(ID, HEADER, terms, shard=40 if quick else 120)
     mismatches, oracle_fail = [], []
     judged_total = 0
     ok_traces = 0
+    if not ok_exec:
+        mismatches.append({"case": None, "detail": "executable model C07/ReducerExec.v does not build: " + mk_out[-1500:]})
     for c, ti, tm in zip(cases, impl["cases"], model[: len(cases)]):
-        if isinstance(tm, Exception):
-            mismatches.append({"case": c, "detail": str(tm)})
-            continue
         si = [norm_step_impl(c, s) for s in ti]
+        # the direct oracle judges the implementation on its own (also when the model cannot be evaluated)
+        d, judged = oracle_case(c, si)
+        judged_total += judged
+        if d is not None:
+            oracle_fail.append({"case": c, "detail": d, "signature": signature(c, d)})
+        if isinstance(tm, Exception):
+            if ok_exec:
+                mismatches.append({"case": c, "detail": str(tm)})
+            continue
         sm = [norm_step_model(c, s) for s in tm]
         bad = None
         if len(si) != len(sm):
@@ -652,14 +663,11 @@ def run(ctx):
             mismatches.append({"case": c, "detail": bad})
         else:
             ok_traces += 1
-        d, judged = oracle_case(c, si)
-        judged_total += judged
-        if d is not None:
-            oracle_fail.append({"case": c, "detail": d, "signature": signature(c, d)})
     kern_bad = 0
     for k, ti, tm in zip(kernels, impl["kernels"], model[len(cases):]):
         if isinstance(tm, Exception):
-            mismatches.append({"case": {"kernel": k}, "detail": str(tm)})
+            if ok_exec:
+                mismatches.append({"case": {"kernel": k}, "detail": str(tm)})
             kern_bad += 1
             continue
         a, b = F.dec_float(ti), F.dec_float(tm)
